@@ -112,6 +112,7 @@ package blockstore
 //@     let here, herr := call[Seeker.Seek#0]
 //@     loop[0] invariant lock_kept [C08]: held(b.mu) == 1
 //@     loop[0] invariant reader_ok [C07]: objinv(rdr)
+//@     loop[0] decreases lim(rdr) - pos(rdr)
 //@     call[Seeker.Seek#1] assert next_section_start [C07]: arg1 == wrap_s64(here + wrap_s64(length)) && arg2 == 0 && here == athead(0, pos(rdr)) - sbase(rdr) + vsize(length)
 //@     ensures released [C08]: held(b.mu) == 0
 //@   end
